@@ -151,6 +151,34 @@ def run(prog, rep, tier='quick', config='default'):
             rep.ok('R18d', k, where=c.where(), fn=f.name,
                    detail='between recording the trade row and add_implicit_fxt only the "currency is not CAD" test decides')
 
+    # R18f: cash amounts keep their sign on the way into the FX tracker (a negative dividend is a reversal, not income)
+    n_amt = 0
+    for f in qt + [g for f0 in qt for g in prog.closures_of(f0)]:
+        sites = []
+        for c in f.calls:
+            if c.short == 'fx_tx' and 'FxTracker' in c.callee and len(c.args) >= 4:
+                sites.append((c.where(), c.args[3], 'the amount handed to FxTracker::fx_tx'))
+        for b in f.blocks.values():
+            for st in b['stmts']:
+                r = st['r']
+                if r['rv'] == 'agg' and 'amount' in r.get('fields', []) and 'FxtRow' in r['kind']:
+                    sites.append((f.where(st), r['ops'][r['fields'].index('amount')], 'FxtRow.amount'))
+        for (where, o, what) in sites:
+            if not is_place(o):
+                continue
+            n_amt += 1
+            po = mir.provenance(f, o, follow_all_call_args=True)
+            bad = [x for x in po.calls if x.short in ('abs', 'neg', 'max', 'min', 'clamp', 'signum', 'checked_abs') and 'Decimal' in x.callee]
+            k = '%s|cash-amount-keeps-its-sign#%d' % (f.name.split('::{')[0], n_amt)
+            if bad:
+                rep.violation('R18f', k, where=bad[0].where(), fn=f.name,
+                              detail='%s passes through Decimal::%s: a negative amount (a dividend reversal, a withdrawal) is booked as a positive one and the '
+                                     'currency total no longer equals the net cash flow' % (what, bad[0].short))
+            else:
+                rep.ok('R18f', k, where=where, fn=f.name, detail='%s is the cell value, sign included' % what)
+    if n_amt < 2:
+        rep.violation('R18f', 'anchor-lost:cash-amount-sites', detail='anchor lost: only %d cash amounts handed to the FX tracker found' % n_amt)
+
     # R18e: numeric cells are converted with the shortest-representation conversion
     retain = [c for f in prog.product_fns() for c in f.calls if re.search(r'Decimal::from_f(64|32)_retain$', c.callee)]
     if retain:
